@@ -1400,6 +1400,31 @@ def make_callback(st, stats):
                         got[k][1] != want[k][1] or not same_value(got[k][0], want[k][0])
                         for k in want):
                     stats.reentry.append(["nested parse", repr(want), repr(got)[:200]])
+                # a text with custom units of its own - under the names the outer text may be
+                # using with other sizes - and a constraint in terms of them
+                q = DIP(name=st["fname"] + "_nested2")
+                q.add_string("$unit ell = 3 m\n$unit tick = 5 s\n$unit blob = 2 g\n"
+                             "wm float = 1 m\nwm = 2 [ell]\nds float = 1 s\nds = 3 [tick]\n"
+                             "x float = 2 [ell]\n  !condition ('{?} < 7 m')")
+                d = q.parse().data(format=Format.TUPLE)
+                got = {k: (split_tuple(v)[0], split_tuple(v)[1]) for k, v in d.items()}
+                want = {"wm": (6.0, "m"), "ds": (15.0, "s"), "x": (2.0, "[ell]")}
+                if list(got) != list(want) or any(
+                        got[k][1] != want[k][1] or not same_value(got[k][0], want[k][0])
+                        for k in want):
+                    stats.reentry.append(["nested parse with custom units", repr(want),
+                                          repr(got)[:200]])
+                # a text that must be refused is refused in here as well
+                for bad in ("size float cm", "x float = 9 m\n  !condition ('{?} < 7 m')",
+                            "k int = 3\n  !options [1,2]"):
+                    q = DIP(name=st["fname"] + "_nested3")
+                    q.add_string(bad)
+                    try:
+                        q.parse()
+                        stats.reentry.append(["invalid text parsed from a callback", "refused",
+                                              "accepted: " + bad])
+                    except Exception:
+                        pass
                 v = Quantity(3.0, "km").value("m")
                 if abs(v - 3000.0) > 1e-9:
                     stats.reentry.append(["3 km in m", 3000.0, repr(v)])
